@@ -14,7 +14,10 @@ shapes + provenance of regex-group captures + constant propagation); helpers are
   C06.R4  a file without start/end tags is rejected with PumlParsingError; with tags exactly the text between them is scanned
           (decided by folding the tag slicing - regex or str.find/partition/... - on a table of file contents)
   C06.R5  a declaration with an alias and an alias-free declaration of the same component stay distinct until the alias map is
-          built (the declaration pattern also matches a bracketed name at the end of an arrow line)
+          built (the declaration pattern also matches a bracketed name at the end of an arrow line): records in sets / dict keys
+          compare on the alias too; and however the declarations are collected (dict name -> alias, list + set of seen names,
+          ...), at least one place that records the alias while the matches are read runs although the name was mentioned
+          before (no first-mention-wins: setdefault, `if name not in ...`) and is not overwritten with None by a later mention
   C06.R6  parse is history-free: no location that outlives a call of `parse` (attribute of the parser object, class-level or
           module-level variable, memoised object, mutable default) is read before this call has re-initialised it on every path
           while the call tree of `parse` writes input-dependent or accumulated content into it (rules/c06_state.py: a flow-sensitive
@@ -28,12 +31,14 @@ import ast
 import re
 import re._constants as C
 
-from core.loader import AnalysisError, ClassInfo, Repo, norm
+from core import guards as G
+from core.loader import AnalysisError, ClassInfo, Repo, enclosing_stmt, norm
 from core.regex_lang import Regex, cross_validate
 from core.report import Result
 
 from . import c06_absint as A
 from . import c06_state as S
+from .common import conds
 
 PARSER_CLASS = "pytestarch.diagram_extension.diagram_parser.PumlParser"
 RESULT_CLASS = "pytestarch.diagram_extension.parsed_dependencies.ParsedDependencies"
@@ -48,6 +53,8 @@ TAGGED = f"some text\n[X] --> [Y]\n@startuml{BODY}@enduml\ntrailing\n[P] --> [Q]
 # further accepted layouts: (what, file content); the text between the tags is BODY in all of them
 ACCEPTED_MORE = [
     ("a diagram followed by text that mentions @startuml", f"intro\n@startuml{BODY}@enduml\nsee the @startuml reference\n[P] --> [Q]\n"),
+    # (what, content, text between the tags when it is not BODY)
+    ("a single line break between the tags (an empty diagram)", "intro\n@startuml\n@enduml\n", "\n"),
 ]
 REJECTED = [
     ("no tags at all", "just text\n[A] --> [B]\n"),
@@ -57,6 +64,7 @@ REJECTED = [
     ("the end tag before the start tag", "@enduml\n[A] --> [B]\n@startuml\n"),
     ("a start tag without end tag after a text that mentions @enduml", "intro: diagrams end with @enduml\n@startuml\n[A] --> [B]\n"),
     ("nothing between adjacent tags", "@startuml@enduml"),
+    ("nothing between adjacent tags after some text", "intro\n@startuml@enduml\n"),
 ]
 
 
@@ -589,6 +597,7 @@ def run(repo: Repo) -> Result:
     # ---- R5 declarations with and without alias stay distinct
     implicit = sorted({line for line, _t, _h in dep_forms if decl_records(line)})
     check_records(repo, res, interp, set(aliases), set(names), parse_key, parse_where, implicit[0] if implicit else None)
+    check_collection(repo, res, interp, set(aliases), set(names), parse_key, parse_where, implicit[0] if implicit else None)
     # ---- R4 tags
     check_tags(repo, res, parser, error_cls, {lp.p.text for lp in lps}, parse_key, parse_where)
     return res
@@ -750,6 +759,205 @@ def check_records(repo: Repo, res: Result, interp: A.Interp, aliases: set, names
         res.add("C06.R5", parse_key + "::declarations are not deduplicated by name", True, "declaration records (name, alias) are not elements of a set / keys of a dict: declarations of one component with and without alias cannot be merged", parse_where, nontrivial=False)
 
 
+# ---- R5, second half: however the declarations are collected, the alias of a declaration is not lost to an alias-free mention
+A_CUR, P_SEEN, Q_NONE = "alias of this mention is not None", "name was collected before", "alias recorded for the name is None"
+
+
+class Meaning:
+    """What the tests the abstract run evaluated mean for the collection of declarations (atoms A_CUR / P_SEEN / Q_NONE)."""
+
+    def __init__(self, interp: A.Interp, aliases: set, names: set) -> None:
+        self.interp, self.aliases, self.names = interp, aliases, names
+
+    @staticmethod
+    def direct(av: A.AV) -> set:
+        return {a for a in av.prov if a and a[0] == "g"}
+
+    @staticmethod
+    def looked_up(av: A.AV) -> set:
+        return {a[1] for a in av.prov if a and a[0] == "v"}
+
+    def name_keyed(self, n) -> bool:
+        if isinstance(n, A.View):
+            return n.kind == "keys" and self.name_keyed(n.d)
+        if isinstance(n, A.Dict):
+            k = bases(n.k.prov)
+            return bool(k & self.names) and not k & self.aliases
+        if isinstance(n, A.Seq):
+            k = bases(n.elem.prov)
+            return bool(k & self.names) and not k & self.aliases and not n.elem.refs
+        return False
+
+    def value(self, av: A.AV) -> str | None:
+        d, l = self.direct(av), self.looked_up(av)
+        if av.refs:
+            return None
+        if d and d <= self.aliases and not l and av.look is None and not av.src:
+            return "current"
+        if l and l <= self.aliases and not d:
+            return "stored"
+        return None
+
+    def of(self, e: ast.AST):
+        recs = self.interp.tests.get(id(e))
+        if not recs:
+            return None
+        out = set()
+        for what, av, cont in recs:
+            f = None
+            if what in ("is-none", "is-not-none", "truthy"):
+                v = self.value(av)
+                if v == "current":
+                    f = G.atom(A_CUR)  # "is not None" / truthy
+                elif v == "stored":
+                    f = G.f_and([G.atom(P_SEEN), G.f_not(G.atom(Q_NONE))]) if av.look is not None else G.f_not(G.atom(Q_NONE))
+                if f is not None and what == "is-none":
+                    f = G.f_not(f)
+            elif what in ("in", "not-in") and cont is not None:
+                k = bases(av.prov)
+                if k & self.names and not k & self.aliases and not av.refs and cont.refs and not cont.top and all(self.name_keyed(n) for n in cont.refs):
+                    f = G.atom(P_SEEN) if what == "in" else G.f_not(G.atom(P_SEEN))
+            out.add(repr(f))
+            last = f
+        return last if len(out) == 1 else None
+
+    def subst(self, fi):
+        single: dict = {}
+        counts: dict = {}
+        if fi is not None and not isinstance(fi.node, ast.Lambda):
+            for n in A._own(fi.node):
+                if isinstance(n, ast.Name) and isinstance(n.ctx, ast.Store):
+                    counts[n.id] = counts.get(n.id, 0) + 1
+                if isinstance(n, ast.Assign) and len(n.targets) == 1 and isinstance(n.targets[0], ast.Name):
+                    single[n.targets[0].id] = n.value
+
+        def sub(e: ast.expr):
+            f = self.of(e)
+            if f is not None:
+                return f
+            if isinstance(e, ast.Name) and counts.get(e.id) == 1 and e.id in single and isinstance(single[e.id], (ast.Compare, ast.BoolOp, ast.UnaryOp)):
+                return G.to_formula(single[e.id], sub)
+            return None
+
+        return sub
+
+    def guard(self, stack: tuple):
+        parts = []
+        for fi, node in stack:
+            if fi is None:
+                continue
+            parts.append(G.conds_formula(conds(fi, node), self.subst(fi)))
+        return G.f_and(parts)
+
+
+def check_collection(repo: Repo, res: Result, interp: A.Interp, aliases: set, names: set, parse_key: str, parse_where: str, implicit: str | None) -> None:
+    """The alias of `[n] as a` must survive an alias-free mention of n (before or after it) in whatever collects the declarations.
+
+    Looks at the loops / comprehensions over the matches of the declaration pattern: every place where text captured by the alias
+    group enters a heap container while such a loop runs is a *sink*, with the condition it runs under (path conditions of the
+    statement and of the calls leading to it, read with the meaning the abstract run gave to the tests).  Scenario 1 (mention first):
+    the alias is lost when no sink can run while the name is already collected (first mention wins).  Scenario 2 (declaration first):
+    the alias is lost when every sink is an entry of a name-keyed dict that a later alias-free mention overwrites (last mention wins)."""
+    if not aliases:
+        return
+    M = Meaning(interp, aliases, names)
+    how = f"an arrow line such as `{implicit}` also matches the declaration pattern and mentions its last component without alias" if implicit else "a component may be mentioned twice, once with and once without alias"
+    loops: dict = {}
+    for g in interp.growths.values():
+        if g.atoms & aliases:
+            loops.setdefault(id(g.loop), []).append(g)
+    s1 = G.f_and([G.atom(A_CUR), G.atom(P_SEEN), G.atom(Q_NONE)])
+    s2 = G.f_and([G.f_not(G.atom(A_CUR)), G.atom(P_SEEN), G.f_not(G.atom(Q_NONE))])
+    known = {A_CUR, P_SEEN, Q_NONE}
+    reported = False
+
+    def events_at(g: A.Growth) -> list:
+        node = g.stack[-1][1]
+        stmt = node if isinstance(node, ast.stmt) else enclosing_stmt(node)
+        return [e for e in interp.events.values() if g.target in e.dicts and (enclosing_stmt(e.node) is stmt or e.node is stmt)]
+
+    for sinks in loops.values():
+        blocked, erased, free = [], [], []
+        for g in sinks:
+            fi, node = g.stack[-1]
+            evs = events_at(g)
+            try:
+                guard = M.guard(g.stack)
+                first_wins = isinstance(g.target, A.Dict) and M.name_keyed(g.target) and bool(evs) and all(e.kind == "setdefault" and bases(e.key.prov) & names for e in evs)
+                if first_wins:
+                    blocked.append((g, "`setdefault` keeps the entry of the first mention"))
+                    continue
+                if isinstance(g.target, A.Dict) and M.name_keyed(g.target) and evs and all(e.kind == "assign" and get_with_default(e) for e in evs):
+                    blocked.append((g, "`get(name, alias)` returns what the first mention recorded, also when that is None"))
+                    continue
+                if not G.satisfiable(guard, s1):
+                    blocked.append((g, f"it only runs when {G.show(guard)}"))
+                    continue
+                over = [e for e in evs if e.kind in ("assign", "comp", "ctor") and not e.reads_same and isinstance(g.target, A.Dict) and M.name_keyed(g.target) and bases(e.key.prov) & names]
+                if over and len(over) == len(evs) and all(may_be_none(interp, e.val, aliases) for e in over) and G.atoms_of(guard) <= known and G.implies(s2, guard):
+                    erased.append((g, "the store also runs for a later mention without alias and replaces the entry"))
+                    continue
+            except AnalysisError:
+                pass
+            free.append(g)
+        if free or not (blocked or erased):
+            continue
+        g, why = (blocked or erased)[0]
+        fi, node = g.stack[-1]
+        construct = repo.key(fi, node if isinstance(node, ast.stmt) else enclosing_stmt(node)) + "::alias of a declaration survives an alias-free mention"
+        where_ = f"{fi.relpath}:{getattr(node, 'lineno', 0)}"
+        if blocked and not erased:
+            order = "a mention without alias *before* the declaration `[n] as a` wins"
+        elif erased and not blocked:
+            order = "a mention without alias *after* the declaration `[n] as a` wins"
+        else:
+            order = "whichever of the declaration `[n] as a` and a mention without alias comes first / last wins"
+        res.add(
+            "C06.R5",
+            construct,
+            False,
+            f"`{norm(node, 70)}` is the only place where the alias of a declaration is recorded while the matches of the declaration pattern are read, and {why}: {order} "
+            f"({how}), the alias is never registered and becomes a component of its own - the result depends on line order",
+            where_,
+            kind="flow",
+        )
+        reported = True
+    if loops and not reported:
+        res.add("C06.R5", parse_key + "::alias of a declaration survives an alias-free mention", True, f"{sum(len(v) for v in loops.values())} place(s) record the alias of a declaration while the matches are read; at least one of them runs whether or not the name was mentioned before and is not overwritten by a later mention without alias", parse_where, kind="flow")
+
+
+def get_with_default(e: A.Event) -> bool:
+    """`d[k] = d.get(k, v)`: the entry of a key that is present is written back unchanged."""
+    s = e.node
+    if not isinstance(s, (ast.Assign, ast.AnnAssign)) or s.value is None:
+        return False
+    t = s.targets[0] if isinstance(s, ast.Assign) and len(s.targets) == 1 else getattr(s, "target", None)
+    v = s.value
+    return (
+        isinstance(t, ast.Subscript)
+        and isinstance(v, ast.Call)
+        and isinstance(v.func, ast.Attribute)
+        and v.func.attr == "get"
+        and len(v.args) == 2
+        and norm(v.func.value) == norm(t.value)
+        and norm(v.args[0]) == norm(t.slice)
+    )
+
+
+def may_be_none(interp: A.Interp, av: A.AV, aliases: set) -> bool:
+    """Can the alias carried by the stored value be None (the store is not restricted to mentions with an alias)?"""
+    if av.maybe_none() and bases(av.prov) & aliases:
+        return True
+    for n in av.refs:
+        if isinstance(n, A.Rec):
+            if any(bases(v.prov) & aliases and v.maybe_none() for v in n.fields.values()):
+                return True
+        elif isinstance(n, A.Seq) and n.items is not None:
+            if any(bases(v.prov) & aliases and v.maybe_none() for v in n.items):
+                return True
+    return False
+
+
 def record_equality(repo: Repo, ci: ClassInfo, alias_fields: list[str], how: str) -> tuple[bool | None, str]:
     """Do two records that differ only in the alias compare unequal?"""
     for c in repo.mro(ci):
@@ -822,7 +1030,8 @@ def check_tags(repo: Repo, res: Result, parser: ClassInfo, error_cls: ClassInfo,
         return parse_key, parse_where
 
     # accepted content: exactly the text between the tags is scanned
-    for what, content in ACCEPTED_MORE:
+    for what, content, *rest in ACCEPTED_MORE:
+        body = rest[0] if rest else BODY
         interp, _v, completed = interpret(repo, parser, A.const(content))
         construct = f"{parse_key}::content between the tags [{what}]"
         subjects = [s for s in interp.sites.values() if s.pattern.text in line_patterns]
@@ -835,11 +1044,11 @@ def check_tags(repo: Repo, res: Result, parser: ClassInfo, error_cls: ClassInfo,
             res.undecide("C06.R4", construct, f"the text scanned for declarations / arrows is not determined by folding the tag slicing (unmodelled: {interp.unknown[:3]}; may raise: {sorted({r.name for r in hard})})", parse_where)
         else:
             seen = sorted({v for s in subjects for v in s.subject.values() if v is not None}, key=repr)
-            want_lines = {l.strip() for l in BODY.splitlines() if l.strip()}
+            want_lines = {l.strip() for l in body.splitlines() if l.strip()}
             got_lines = {l.strip() for v in seen if isinstance(v, str) for l in v.splitlines() if l.strip()}
             ok = all(isinstance(v, str) for v in seen) and got_lines == want_lines
             skey, swhere = slicing_site(interp)
-            res.add("C06.R4", construct if ok else skey + f" [{what}]", ok, "the text between the start tag and the last end tag is scanned" if ok else f"for a file with {what} the text scanned for declarations / arrows is {seen!r}, not the diagram between the tags ({BODY!r}): the start tag is not searched before the end tag" + (" - an empty diagram is returned silently" if not got_lines else ""), parse_where if ok else swhere, kind="regex-language")
+            res.add("C06.R4", construct if ok else skey + f" [{what}]", ok, "the text between the start tag and the last end tag is scanned" if ok else f"for a file with {what} the text scanned for declarations / arrows is {seen!r}, not the diagram between the tags ({body!r}): the start tag is not searched before the end tag" + (" - an empty diagram is returned silently" if not got_lines and want_lines else ""), parse_where if ok else swhere, kind="regex-language")
     interp, _v, completed = interpret(repo, parser, A.const(TAGGED))
     construct = f"{parse_key}::content between the tags"
     subjects = [s for s in interp.sites.values() if s.pattern.text in line_patterns]
